@@ -7,8 +7,8 @@ for l in open(os.path.join(HERE, 'selftest', 'seed_matrix.txt')):
     parts = [x.strip() for x in l.rstrip('\n').split('|')]
     if len(parts) < 3 or 'own=' not in parts[1]:
         continue
-    if parts[0].endswith('_n'):
-        continue      # the unseen batch is reported separately (selftest/seed_matrix_unseen.txt)
+    if parts[0].endswith('_n') or parts[0].endswith('_z'):
+        continue      # the unseen batches are reported separately (selftest/seed_matrix_unseen.txt, seed_matrix_z.txt)
     rows.append((parts[0], parts[1].replace('own=', ''), parts[2].replace('violations:', '').strip(),
                  (parts[3] if len(parts) > 3 else '').replace('undecided:', '').strip(), parts[4] if len(parts) > 4 else '',
                  parts[5] if len(parts) > 5 else ''))
